@@ -27,7 +27,7 @@ SIG_ROUNDING = "x2max0-exact-match-rounding"
 CHECK_ARGS = dict(
     pkg="bmci", props="Proofs.Props.C18", driver="drv_c18",
     lemma_files=["Proofs/Lemmas/ListAux.lean", "Proofs/Lemmas/Window.lean", "Proofs/Lemmas/Stats.lean",
-                 "Proofs/Lemmas/Interp.lean", "Proofs/Lemmas/Ecdf.lean"],
+                 "Proofs/Lemmas/Interp.lean", "Proofs/Lemmas/Ecdf.lean", "Proofs/Lemmas/Spectral.lean"],
     model_files=["Model/Bmci.lean"],
     trusted=[
         "hand-written model Model/Bmci.lean tied to typhon/retrieval/bmci/bmci.py by the correspondence run of this check "
